@@ -398,6 +398,24 @@ def main(ctx):
     # arrays holding two fields whose names differ only in case ('x' / 'X'): each is its own field
     FX, FXU, FS = ("x", ">f8", ()), ("X", "<i4", ()), ("s", "S3", ())
     case_units = [(fl, sh) for fl in ((FX, FXU), (FXU, FX), (FX, FS, FXU), (FXU, FS, FX), (FS, FXU, FX)) for sh in MAIN_SHAPES]
+    # wide tables (40 and 70 fields) with requests of more than 32 / 64 names in another order than the table's
+    def _wide_cases():
+        WIDE = {n: tuple(("f%02d" % j, ("<i4", ">f8", "S3", "<i2")[j % 4], (2,) if j % 11 == 5 else ()) for j in range(n)) for n in (40, 70)}
+        out = []
+        for n, flds in WIDE.items():
+            nm = [f[0] for f in flds]
+            for sel in (tuple(nm[::-1]), tuple(nm[5:] + nm[:5]), tuple(nm[::-1][:n - 5]), tuple(nm[3:n - 3][::-1]), tuple(nm[1::2] + nm[0::2]), tuple(nm[:33][::-1]), tuple(nm[:n - 2])):
+                for cont in ("list", "tuple", "array"):
+                    for strict in (True, False):
+                        out.append(("extract", flds, (3,), 0, sel, cont, strict))
+                        out.append(("reorder", flds, (3,), 0, sel, cont, strict))
+                    if cont == "list":
+                        out.append(("remove", flds, (3,), 0, sel[:n - 3], cont, None))
+                        out.append(("split", flds, (3,), 0, sel, cont, True))
+        return out
+    wide_cases = _wide_cases()
+    ctx.lattice("select-wide-tables", wide_cases, one_select, bounds=dict(fields=[40, 70], requests="reversed, rotated, reversed prefixes, odd-then-even, first 33 reversed, all but two"))
+
     # field names that contain characters a "convenience" parser of name lists would trip over: a comma, a blank, a
     # colon, a bracket, non-ASCII, a leading digit - next to the parts such a name would be split into ('g', 'r')
     ODD = [("g,r", ">f8", ()), ("a b", "<i4", ()), ("x:y", "S3", ()), ("v[0]", "<i2", (2,)), ("é", "<f4", ()), ("1st", "i1", ())]
